@@ -519,40 +519,54 @@ def _trace_one(case_line, tmp):
     return p.stdout
 
 
-def steer_search(res, log, limit=12):
-    """S1 found steps where the implementation offers an opcode the model's guard forbids (valid-set disagreement) but no run
-    happened to pick it.  For each such (state, opcode): rebuild the simulated state from scratch with a minimal opcode path
-    (compiled by the model into fuzzer bytes), make the implementation pick exactly that opcode next, let it finish, and judge
-    the output with all oracles.  Returns parse_verdicts-style props (concrete failing inputs) and the specs of the new cases."""
+def steer_search(res, log, limit=16, s8res=None):
+    """S1 / S8 found states where the implementation offers an opcode the model's guard forbids (valid-set disagreement) but no
+    run happened to pick it.  For each such (state, opcode) - the small hand-built states of S8 first, they give the shortest
+    inputs - rebuild the simulated state from scratch with a minimal opcode path (compiled by the model into fuzzer bytes),
+    make the implementation pick exactly that opcode next, let it finish, and judge the output with all oracles.
+    Returns parse_verdicts-style props (concrete failing inputs) and the specs of the new cases."""
     norm = lambda n: n.replace('_', '').lower()
-    todo, seen = [], set()
-    for d in res['diffs']:
-        m = re.match(r'valid-set impl=(\S*) model=(\S*)', d['what'])
-        if not m:
+    tmp = os.path.join(BUILD, 'steer')
+    os.makedirs(tmp, exist_ok=True)
+    todo = []          # (origin, v, stack, memo, extra opcodes, case line with the flags)
+    for d in (s8res or {}).get('diffs', []):
+        m = re.match(r's8-valid-set impl=(\S*) model=(\S*)', d['what'])
+        if not m or d['id'] not in s8res['specs']:
             continue
         impl, model = [x for x in m.group(1).split(',') if x], [x for x in m.group(2).split(',') if x]
         extra = [x for x in impl if norm(x) not in set(norm(y) for y in model)]
-        if extra and d['id'] in res['specs']:
-            todo.append((d['id'], int(d['step'].split('=')[1]), extra))
-    props, specs, tried = [], {}, 0
-    tmp = os.path.join(BUILD, 'steer')
-    os.makedirs(tmp, exist_ok=True)
-    for (cid, step, extra) in todo:
-        if tried >= limit:
-            break
-        line = res['specs'][cid]
-        v = int(re.search(r'\bv=(\d)', line).group(1))
+        line = s8res['specs'][d['id']]
+        if extra:
+            kvs = dict(w.split('=', 1) for w in line.split() if '=' in w)
+            todo.append(('S8 state %s' % d['id'], int(kvs['v']), kvs['stack'], kvs['memo'], extra, line))
+    todo.sort(key=lambda t: (len(t[2]), len(t[3])))
+    for d in res['diffs']:
+        m = re.match(r'valid-set impl=(\S*) model=(\S*)', d['what'])
+        if not m or d['id'] not in res['specs']:
+            continue
+        impl, model = [x for x in m.group(1).split(',') if x], [x for x in m.group(2).split(',') if x]
+        extra = [x for x in impl if norm(x) not in set(norm(y) for y in model)]
+        if not extra or len(todo) > 400:
+            continue
+        line = res['specs'][d['id']]
+        step = int(d['step'].split('=')[1])
         steps = [l.split() for l in _trace_one(line, tmp).splitlines() if l.startswith('STEP ')]
         if step < 1 or step > len(steps):
             continue
         stack, memo = ('-', '-') if step == 1 else (steps[step - 2][6], steps[step - 2][7])
+        todo.append(('S1 case %s step %d' % (d['id'], step), int(re.search(r'\bv=(\d)', line).group(1)), stack, memo, extra, line))
+    props, specs, tried, seen = [], {}, 0, set()
+    for (origin, v, stack, memo, extra, line) in todo:
+        if tried >= limit:
+            break
         for x in extra:
-            sig = (v, stack, memo, norm(x), re.sub(r'\b(id|src|min|max)=\S+', '', line))
+            if tried >= limit:
+                break
+            sig = (v, stack, memo, norm(x), ' '.join(w for w in line.split() if re.match(r'(unsafe|ext|buf)=', w)))
             if sig in seen:
                 continue
             seen.add(sig)
-            path = []
-            okp = True
+            path, okp = [], True
             for e in ([] if memo == '-' else memo.split(',')):
                 r = _recipe(e.split(':')[1], v)
                 if r is None or e.split(':')[1] == 'M':
@@ -570,11 +584,11 @@ def steer_search(res, log, limit=12):
             n = sum(len(x_.split(';')) for x_ in path)
             flags = ' '.join(w for w in line.split() if re.match(r'(rate|unsafe|ext|buf|muts)=', w))
             def compiled(tail):
-                pf = os.path.join(tmp, 'steer.paths')
-                open(pf, 'w').write('v=%d %s tail=%s path=%s\n' % (v, flags, tail, ';'.join(path)) if path else '')
                 if not path:
                     pre = '00' if v >= 4 else ''
                     return 'id=steer v=%d min=1 max=1 %s src=bytes:%s' % (v, flags, pre + tail)
+                pf = os.path.join(tmp, 'steer.paths')
+                open(pf, 'w').write('v=%d %s tail=%s path=%s\n' % (v, flags, tail, ';'.join(path)))
                 q = subprocess.run([DRIVER, 'paths', pf], stdout=subprocess.PIPE, stderr=subprocess.PIPE, text=True, env=ENV, timeout=600)
                 ls = [l for l in q.stdout.splitlines() if l.startswith('id=')]
                 if not ls:
@@ -599,10 +613,10 @@ def steer_search(res, log, limit=12):
             pv = parse_verdicts(out)
             specs[fid] = final
             for pr in pv['props']:
-                pr['detail'] += ' (found by steering the implementation into %s in simulated state stack=%s memo=%s, where the model forbids it; disagreement first seen in case %s step %d)' % (x, stack, memo, cid, step)
+                pr['detail'] += ' (found by steering the implementation into %s in simulated state stack=%s memo=%s, where the model forbids it; disagreement first seen in %s)' % (x, stack, memo, origin)
                 props.append(pr)
     if todo:
-        log('steer: %d valid-set disagreement(s) with an opcode only the implementation offers, %d state(s) rebuilt and steered, %d oracle failure(s)' % (len(todo), tried, len(props)))
+        log('steer: %d state(s) where only the implementation offers some opcode, %d rebuilt and steered, %d oracle failure(s)' % (len(todo), tried, len(props)))
     return props, specs
 
 
